@@ -21,13 +21,13 @@ structure Iter where
 /-- `hostlist_iterator_create` -/
 def Iter.new : Iter := ⟨0, -1⟩
 
-/-- `_iterator_advance`: `++depth > hr->hi - hr->lo` is an `unsigned long` comparison -/
+/-- `_iterator_advance`: `++depth > hr->hi - hr->lo` is an `unsigned long` comparison; depth is
+    ≥ -1 at entry, so the incremented `int` converts to `unsigned long` unchanged (`toNat`) -/
 def iterAdvance (h : HL) (it : Iter) : Iter :=
   match h.ranges[it.idx]? with
   | none => it                                        -- idx > nranges - 1
   | some r =>
-    let d := it.depth + 1
-    if (d % (U64 : Int)).toNat > subU64 r.hi r.lo then ⟨it.idx + 1, 0⟩ else ⟨it.idx, d⟩
+    if (it.depth + 1).toNat > subU64 r.hi r.lo then ⟨it.idx + 1, 0⟩ else ⟨it.idx, it.depth + 1⟩
 
 /-- DEFECT D17: `char suffix[16]; snprintf(suffix, 15, "%0*lu", width, lo + depth)` keeps the
     first 14 characters of the formatted number only.   Repaired form: `s`. -/
@@ -40,7 +40,7 @@ def iterNext (h : HL) (it : Iter) : Option Str × Iter :=
   | none => (none, it')
   | some r =>
     let suffix := if r.single then []
-      else iterSuffix (fmtPad r.width (addU64 r.lo (it'.depth % (U64 : Int)).toNat))
+      else iterSuffix (fmtPad r.width (addU64 r.lo it'.depth.toNat))
     (some (r.pre ++ suffix), it')
 
 /-- `while ((host = hostlist_next(i)))`, at most `limit` names -/
